@@ -51,7 +51,7 @@ func serialize(parents []any) string {
 
 func once(c *Case) ([]any, error) {
 	ds := c.BuildDS()
-	opts := []annotate.Option{annotate.Threshold(time.Duration(c.Eps) * time.Second)}
+	opts := []annotate.Option{annotate.Threshold(time.Duration(c.Eps) * c.Unit())}
 	if c.IgnoreInconsistency {
 		opts = append(opts, annotate.IgnoreInconsistency(true))
 	}
